@@ -209,12 +209,12 @@ def goal_parts(q):
     return q[1], q[2]
 
 
-def run_query(yp, q, limit, vmap=None):
+def run_query(yp, q, limit, vmap=None, builder=None):
     """enumerate query term q on engine yp; returns (status, answers) with answers canonical like R.query:
     status 'done' (exhausted) or 'limit'."""
     name, args = goal_parts(q)
     vmap = {} if vmap is None else vmap
-    eargs = [to_engine(yp, a, vmap) for a in args]
+    eargs = [to_engine(builder or yp, a, vmap) for a in args]
     out = []
     status = 'done'
     g = yp.query(name, eargs)
